@@ -916,6 +916,7 @@ func threadJobs(tier string) []Job {
 	}
 	hd := hc
 	hd.MaxLoop = 1200
+	hd.Preempt = -1 // both tiers: the DHCP scenarios carry 300-byte frames and large access logs; with one preemption ten of them running side by side exhaust the 62 GB of this sandbox (measured)
 	for op := int64(0); op <= 4; op++ {
 		for _, mode := range []int64{1, 2} {
 			jobs = append(jobs, Job{Pkg: "handlers/dhcp4_spoofer", Func: "VerifC09DHCP", Args: []int64{op, mode}, Cfg: hd, Threads: true, Reach: r})
@@ -955,7 +956,7 @@ func init() {
 				"threads":  "2 goroutines (thorough: also 3: packet loop + purge + one API caller), one operation each, started from a table with MAC1{2 IPv4 hosts} and MAC2{1 host} whose online flags and ages are symbolic",
 				"ops":      "packet loop (Parse+Notify of a frame refreshing a host / claiming another MAC's address / from a new host; also Notify alone after an earlier Parse), purge(now), FindIP, GetHosts, FindByMAC, FindMACEntry, Capture, Release, IsCaptured, IPAddrs, DHCP offer accessors (together and each on its own), PrintTable, DHCPv4Update, Host.UpdateMDNSName, Close",
 				"handlers": "ARP handler: spoof loop (started by StartHunt) || one of ProcessPacket (ARP request from the victim), StopHunt, StartHunt of another host, IsHunting, PrintTable, StopHunt+StartHunt || optional early Close; ICMPv6 handler: NA spoof loop || one of ProcessPacket (router advertisement), StopHunt, StartHunt, PrintTable, StopHunt+StartHunt || optional early Close or a concurrent ProcessPacket, with and without a known router; the session's own background goroutines are not started; timers fire at most once per path; every run ends with Close and must leave no goroutine blocked; DHCP handler: ProcessPacket (DISCOVER of a new client, primary and secondary mode, one lease that may be expired) || one of MinuteTicker, PrintTable, StartHunt, StopHunt, Close; naming handler: ProcessDNS (new name / name already stored) || one of DNSFind (and reading the returned copy), DNSExist, PrintDNSTable",
-				"schedule": "quick: non-preemptive schedules (every order in which threads start / resume after blocking); thorough: one preemption at any acquire. The happens-before race check is schedule independent for the code executed on a path",
+				"schedule": "quick: non-preemptive schedules (every order in which threads start / resume after blocking); thorough: one preemption at any acquire (DHCP and naming handler scenarios: non-preemptive in both tiers). The happens-before race check is schedule independent for the code executed on a path",
 			}
 			return m
 		},
